@@ -36,6 +36,7 @@ PROPS = {
         "jobs": [
             {"test": "TestC03", "kind": "rapid", "quick": 3200, "thorough": 40000},
             {"test": "TestC03Unstructured", "kind": "rapid", "quick": 80000, "thorough": 1600000},
+            {"test": "TestC03Large", "kind": "enum"},
         ],
         "fuzz": [{"fuzz": "FuzzC03", "budget_s": 180}],
         "floors": {"ref:accept-noncanonical": ("job:TestC03", 0.001), "origin:truncate-patched": ("job:TestC03", 0.03),
